@@ -2500,6 +2500,10 @@ func convert(ctx context.Context, fromDesc *val.TupleDesc, toType sql.Type, from
 	if err != nil {
 		return nil, err
 	}
+	if parsedCell == nil {
+		// SQL NULL stays SQL NULL (JsonType.Convert(nil) would turn it into the JSON document `null`)
+		return nil, nil
+	}
 	convertedCell, _, err := toType.Convert(ctx, parsedCell)
 	return convertedCell, err
 }
